@@ -43,6 +43,18 @@ def cases(ctx):
         a, b = _pair(rng, modes[i % len(modes)])
         num = ["frac", "int", "float"][i % 3] if all(x.denominator == 1 for p in a + b for x in p) else "frac"
         yield {"a": G.verts_to_jordan(a), "b": G.verts_to_jordan(b), "num": num, "mode": modes[i % len(modes)]}
+    for i in range(ctx.n(20, 400)):
+        # nearly parallel crossing edges (the exact solver must not treat a small determinant as "parallel")
+        eps = F(1, rng.choice([10 ** 4, 10 ** 6, 10 ** 7]))
+        a = [(F(0), F(0)), (F(10), F(0)), (F(10), F(6)), (F(0), F(6))]
+        x0 = F(rng.randint(-3, 2))
+        b = [(x0, -eps * rng.randint(1, 9)), (x0 + 12, eps * rng.randint(1, 9)), (x0 + 12, F(-3)), (x0, F(-3))]
+        yield {"a": G.verts_to_jordan(a), "b": G.verts_to_jordan(G.ccw(b)), "num": "frac", "mode": "gp"}
+    for i in range(ctx.n(20, 400)):
+        # the same curve objects queried, moved in place, queried again (bounding boxes must follow the curve)
+        a, b = _pair(rng, "gp")
+        v = (F(rng.randint(-15, 15)), F(rng.randint(-15, 15)))
+        yield {"a": G.verts_to_jordan(a), "b": G.verts_to_jordan(b), "num": "frac", "mode": "moved", "mv": v, "warm": i % 3}
     for i in range(ctx.n(3, 40)):
         yield {"curved": True, "r": rng.choice([1.0, 1.5, 0.8]), "c": [rng.uniform(-0.3, 0.3), rng.uniform(-0.3, 0.3)],
                "side": rng.choice([1.7, 2.2, 1.3]), "nd": rng.choice([4, 8, 16])}
@@ -136,6 +148,19 @@ def check(ctx, case):
     ctx.count("mode:" + case["mode"])
     ctx.count("num:" + num)
     A, B = I.mk_jordan(ja, num), I.mk_jordan(jb, num)
+    if case["mode"] == "moved":
+        # warm whatever the curve may cache, then move it; everything below is about the moved curve
+        v = case["mv"]
+        if case["warm"] == 0:
+            A.intersection(B)
+        elif case["warm"] == 1:
+            (F(0), F(0)) in A
+            A.box()
+        else:
+            A & B
+            float(A)
+        A.move(v[0], v[1])
+        ja = [[(p[0] + v[0], p[1] + v[1]) for p in sg] for sg in ja]
     truth = _exact_rows(ja, jb)
 
     def conv(rows):
